@@ -19,6 +19,8 @@ func main() {
 		cmdSelftest(os.Args[2:])
 	case "inventory":
 		cmdInventory(os.Args[2:])
+	case "lint-locals":
+		cmdLintLocals(os.Args[2:])
 	case "mutate":
 		cmdMutate(os.Args[2:])
 	default:
